@@ -65,15 +65,29 @@ d.ensure("text", lambda cx, result, self, ports, i0: z3.Implies(_op(cx, self) !=
     S.length(result) == S.length(i0), S.forall(0, S.length(i0), lambda i: S.at(result, i) == S.at(i0, i)))))
 
 
+def _gone(ports, k, p):
+    """p is one of ports[:k] (same shape as mem_term, so that at k == len it *is* mem_term(ports, p))"""
+    from pyvc.values import SList
+    return S.mem_term(SList(TInt, S._t(k), ports.a), p)
+
+
 def _inv_remove(cx, k, v):
     p = z3.Int("p!inv")
-    j = z3.Int("j!inv")
-    gone = z3.Exists([j], z3.And(0 <= j, j < k, S.at(v.ports, j) == p))
     return z3.And(ascending(v.items), S.length(v.items) == ALL - k,
-                  z3.ForAll([p], _mem(v.items, p) == z3.And(1 <= p, p <= ALL, z3.Not(gone))))
+                  z3.ForAll([p], _mem(v.items, p) == z3.And(1 <= p, p <= ALL, z3.Not(_gone(v.ports, k, p)))))
 
 
-d.loop(0, _inv_remove)
+d.ghost["asserts"] = {"items.remove(port)": [
+    lambda cx, v: z3.And(1 <= S._t(v.port), S._t(v.port) <= ALL),
+    lambda cx, v: z3.Not(_gone(v.ports, v.__getattr__("__loop_k__"), S._t(v.port))),
+    lambda cx, v: _mem(v.items, S._t(v.port)),
+]}
+d.loop(0, _inv_remove, hints=[
+    lambda cx, k, v: z3.And(1 <= S._t(v.port), S._t(v.port) <= ALL),                   # from ports = P(op, i0)
+    lambda cx, k, v: z3.Not(_gone(v.ports, k, S._t(v.port))),                          # ports strictly ascending
+    lambda cx, k, v: _mem(v.head.items, S._t(v.port)),                                 # so the element is present
+    lambda cx, k, v: S.forall_int(lambda p: _gone(v.ports, k + 1, p) == z3.Or(_gone(v.ports, k, p), p == S._t(v.port))),
+])
 
 
 # ---------------------------------------------------------------- replay builders (native, on the real classes)
